@@ -6,6 +6,92 @@ use std::collections::LinkedList;
 use structdiff::collections::unordered_array_like as ual;
 use structdiff::collections::unordered_map_like as uml;
 
+fn hex(b: &[u8]) -> Sx {
+    l(b.iter().map(|x| n(*x as usize)).collect())
+}
+
+/// bytes of the borrowed diff (as computed) and of its owned conversion, in every codec compiled in
+#[allow(unused_variables, unused_mut)]
+fn uarr_wire(out: &mut Vec<Sx>, r: &ual::UnorderedArrayLikeDiff<&u32>, owned: &ual::UnorderedArrayLikeDiff<u32>) {
+    #[cfg(feature = "nanoserde")]
+    {
+        use nanoserde::SerBin;
+        out.push(tag("nano-owned", vec![hex(&SerBin::serialize_bin(owned))]));
+        out.push(tag("nano-ref", vec![hex(&SerBin::serialize_bin(&r))]));
+    }
+    #[cfg(feature = "serde")]
+    {
+        out.push(tag("bincode-owned", vec![hex(&bincode::serialize(owned).unwrap())]));
+        out.push(tag("bincode-ref", vec![hex(&bincode::serialize(r).unwrap())]));
+    }
+}
+
+#[allow(unused_variables, unused_mut)]
+fn umap_wire(out: &mut Vec<Sx>, r: &uml::UnorderedMapLikeDiff<&u32, &u32>, owned: &uml::UnorderedMapLikeDiff<u32, u32>) {
+    #[cfg(feature = "nanoserde")]
+    {
+        use nanoserde::SerBin;
+        out.push(tag("nano-owned", vec![hex(&SerBin::serialize_bin(owned))]));
+        out.push(tag("nano-ref", vec![hex(&SerBin::serialize_bin(&r))]));
+    }
+    #[cfg(feature = "serde")]
+    {
+        out.push(tag("bincode-owned", vec![hex(&bincode::serialize(owned).unwrap())]));
+        out.push(tag("bincode-ref", vec![hex(&bincode::serialize(r).unwrap())]));
+    }
+}
+
+/// `(uarr-dec nano|bincode (bytes))`, `(umap-dec nano|bincode (bytes))` : the REAL decoder on given bytes:
+/// `(ok <Debug of the decoded owned diff> (reenc (bytes)))` or `(reject)`
+#[allow(unused_variables)]
+pub fn wire_dec(which: &str, rest: &[Sx]) -> Sx {
+    let fmt = rest[0].atom().unwrap_or("").to_string();
+    let bytes: Vec<u8> = rest[1].nats().unwrap().into_iter().map(|x| x as u8).collect();
+    if which == "uarr-dec" {
+        let d: Option<ual::UnorderedArrayLikeDiff<u32>> = match fmt.as_str() {
+            #[cfg(feature = "nanoserde")]
+            "nano" => guarded(|| nanoserde::DeBin::deserialize_bin(&bytes).ok()).flatten(),
+            #[cfg(feature = "serde")]
+            "bincode" => guarded(|| bincode::deserialize(&bytes).ok()).flatten(),
+            _ => return tag("codec-missing", vec![]),
+        };
+        match d {
+            None => tag("reject", vec![]),
+            Some(d) => {
+                let re: Vec<u8> = match fmt.as_str() {
+                    #[cfg(feature = "nanoserde")]
+                    "nano" => nanoserde::SerBin::serialize_bin(&d),
+                    #[cfg(feature = "serde")]
+                    "bincode" => bincode::serialize(&d).unwrap(),
+                    _ => vec![],
+                };
+                tag("ok", vec![dbg(&d), tag("reenc", vec![hex(&re)])])
+            }
+        }
+    } else {
+        let d: Option<uml::UnorderedMapLikeDiff<u32, u32>> = match fmt.as_str() {
+            #[cfg(feature = "nanoserde")]
+            "nano" => guarded(|| nanoserde::DeBin::deserialize_bin(&bytes).ok()).flatten(),
+            #[cfg(feature = "serde")]
+            "bincode" => guarded(|| bincode::deserialize(&bytes).ok()).flatten(),
+            _ => return tag("codec-missing", vec![]),
+        };
+        match d {
+            None => tag("reject", vec![]),
+            Some(d) => {
+                let re: Vec<u8> = match fmt.as_str() {
+                    #[cfg(feature = "nanoserde")]
+                    "nano" => nanoserde::SerBin::serialize_bin(&d),
+                    #[cfg(feature = "serde")]
+                    "bincode" => bincode::serialize(&d).unwrap(),
+                    _ => vec![],
+                };
+                tag("ok", vec![dbg(&d), tag("reenc", vec![hex(&re)])])
+            }
+        }
+    }
+}
+
 fn pairs(x: &Sx) -> Option<Vec<(u32, u32)>> {
     x.list()?
         .iter()
@@ -32,7 +118,9 @@ pub fn uarr(which: &str, rest: &[Sx]) -> Sx {
             None => tag("none", vec![]),
             Some(d) => {
                 let shown = dbg(&d);
-                let owned: ual::UnorderedArrayLikeDiff<u32> = d.into();
+                let mut wire: Vec<Sx> = vec![];
+                let owned: ual::UnorderedArrayLikeDiff<u32> = d.clone().into();
+                uarr_wire(&mut wire, &d, &owned);
                 let o2 = owned.clone();
                 let b2 = base.clone();
                 let applied = guarded(move || ual::apply_unordered_hashdiffs(b2, o2).collect::<Vec<u32>>());
@@ -57,6 +145,7 @@ pub fn uarr(which: &str, rest: &[Sx]) -> Sx {
                             }
                             None => tag("applied-ll-panic", vec![]),
                         },
+                        tag("wire", wire),
                     ],
                 )
             }
@@ -81,7 +170,11 @@ pub fn umap(which: &str, rest: &[Sx]) -> Sx {
             None => tag("none", vec![]),
             Some(d) => {
                 let shown = dbg(&d);
-                let owned: uml::UnorderedMapLikeDiff<u32, u32> = d.into();
+                let mut wire: Vec<Sx> = vec![];
+                let owned: uml::UnorderedMapLikeDiff<u32, u32> = d.clone().into();
+                umap_wire(&mut wire, &d, &owned);
+                let o3 = owned.clone();
+                let owned = o3;
                 let applied = guarded(move || uml::apply_unordered_hashdiffs(base, owned).collect::<Vec<(u32, u32)>>());
                 tag(
                     "some",
@@ -94,6 +187,7 @@ pub fn umap(which: &str, rest: &[Sx]) -> Sx {
                             }
                             None => tag("applied-panic", vec![]),
                         },
+                        tag("wire", wire),
                     ],
                 )
             }
